@@ -183,7 +183,7 @@ def check_graph(A, order, ctx, rng, probe, all_pairs):
             try:
                 rho = f()
                 ctx.count("graph_to_density:calls")
-                if not np.allclose(rho, ref_rho, atol=1e-8):
+                if not np.allclose(rho, ref_rho, atol=1e-8, rtol=0):
                     ctx.violation("graph_to_density_wrong", case, {"via": name, "max_abs_diff": float(np.max(np.abs(rho - ref_rho)))}, key="g2d_wrong")
             except Exception as e:
                 ctx.violation("graph_to_density_raises", case, {"via": name, "exception": _exc(e)}, key="g2d_exc")
@@ -221,13 +221,13 @@ def check_graph(A, order, ctx, rng, probe, all_pairs):
                         same = pauli.same_group_fast(gq.clifford_stab_ptab(q.rep_data.data), ref_group) and \
                             not pauli.check_clifford_tableau(*gq.clifford_snapshot(q.rep_data.data))
                     else:
-                        same = np.allclose(q.rep_data.data, ref_rho, atol=1e-8)
+                        same = np.allclose(q.rep_data.data, ref_rho, atol=1e-8, rtol=0)
                     if not same:
                         key = f"convert_wrong:{a}->{b}"
                         if a == "s" and b == "dm":
                             # mechanism of the open finding: the projector is built from the generator labels without their signs
                             x_, z_, r_, _ = pres_s.to_graphiq()
-                            if r_.any() and np.allclose(q.rep_data.data, dense.projector_of_group(pauli.PTab.from_graphiq(x_, z_, 0 * r_)), atol=1e-8):
+                            if r_.any() and np.allclose(q.rep_data.data, dense.projector_of_group(pauli.PTab.from_graphiq(x_, z_, 0 * r_)), atol=1e-8, rtol=0):
                                 key = "stab-to-density-ignores-signs"
                         ctx.violation("convert_representation_changes_state", case, {"from": a, "to": b}, key=key)
                 except Exception as e:
@@ -275,7 +275,7 @@ def check_state(t, ctx, rng, probe):
             rho = dense.projector_of_group(t)
             for g in gates:
                 rho = dense.gate(rho, GATE[g[0]], [int(g[1])], n)
-            if not np.allclose(rho, dense.ket2dm(dense.graph_state_vec(B)), atol=1e-8):
+            if not np.allclose(rho, dense.ket2dm(dense.graph_state_vec(B)), atol=1e-8, rtol=0):
                 ctx.violation("state_to_graph_gates_do_not_reach_graph_state_dense", case, det, key="s2graph_wrong:dense")
 
 
@@ -353,7 +353,7 @@ def check_history(A, ctx, rseed):
                 if what != "first":
                     ctx.count("history:second_calls_on_same_object")
                 if out_kind == "dm":
-                    ok = np.allclose(res, dense.ket2dm(dense.graph_state_vec(cur)), atol=1e-8)
+                    ok = np.allclose(res, dense.ket2dm(dense.graph_state_vec(cur)), atol=1e-8, rtol=0)
                 else:
                     ok = pauli.same_group_fast(tab_group(res), group_of(cur))
                 if not ok:
@@ -403,7 +403,7 @@ def check_history(A, ctx, rseed):
                 elif b == "s":
                     ok = pauli.same_group_fast(gq.clifford_stab_ptab(q.rep_data.data), group_of(A))
                 else:
-                    ok = np.allclose(q.rep_data.data, dense.ket2dm(dense.graph_state_vec(A)), atol=1e-8)
+                    ok = np.allclose(q.rep_data.data, dense.ket2dm(dense.graph_state_vec(A)), atol=1e-8, rtol=0)
                 ctx.count("history:second_calls_on_same_object")
             except Exception as e:
                 ctx.violation("convert_representation_raises", case, {"path": path, "to": b, "exception": _exc(e)}, key=f"hist_convert_exc:{b}")
